@@ -105,7 +105,7 @@ def dstep (s : DState) (toks : List String) : DState × List String :=
     match t.toNat? with
     | some t =>
       if t > 255 || s.proc.handlers.contains (.app t) ||
-         (s.proc.handlers.filter (fun h => h != .tight)).length ≥ 8 then (s, ["bad-op"])
+         (s.proc.handlers.filter (fun h => h != .tight)).length ≥ 256 then (s, ["bad-op"])
       else (ev s (.register (.app t)), ["ok"])
     | none => (s, ["bad-op"])
   | ["unext", t] =>
